@@ -418,6 +418,15 @@ def ser_case(w, fuel):
         glist([gn(q) for q in sorted(w.quant)]), fuel, glist(es))
 
 
+def coq_failing_two_at_a_time(ctx, cases, ok_fn, imports, preamble, shard):
+    """ctx.coq_failing runs its shards in parallel; feed it two shards per call so that at most two coqc run at once."""
+    bad = []
+    for base in range(0, len(cases), 2 * shard):
+        part = cases[base:base + 2 * shard]
+        bad += [base + i for i in ctx.coq_failing(part, ok_fn, imports=imports, preamble=preamble, shard=shard, timeout=1500)]
+    return bad
+
+
 def run(ctx):
     ok_proofs = ctx.check_props(extra=["theories/Corr/Corr_C14.v"])
     rng = ctx.rng
@@ -460,7 +469,7 @@ def run(ctx):
         if n_calls >= 5 and any(o[0] == "exc" for o in outs):
             nontrivial.add(json.dumps(calls))
     imports = ["UPV.Model.Dag", "UPV.Corr.Corr_C14"]
-    bad = ctx.coq_failing(cases, "ok", imports=imports, shard=13 if ctx.quick else 40, timeout=1500)
+    bad = coq_failing_two_at_a_time(ctx, cases, "ok", imports, "", 50 if ctx.quick else 100)
     for f in oracle_fail[:20]:
         tags = ["c14", "fresh-env-oracle", "call:" + f["call"][0], "shared:" + f["shared_env"][1] if f["shared_env"][0] == "exc" else "shared:ok"]
         ctx.fail("oracle", "call %s answers %s on the shared environment but %s on a fresh one (after %d earlier calls)" % (
